@@ -315,6 +315,9 @@ class iindex(dict):
             try:
                 if len(values) == 0:
                     values = values.astype(int)  # So bincount doesn't error.
+                elif values.max() > 16 * values.size + 65536:
+                    # bincount allocates max+1 counters; use unique instead.
+                    raise ValueError("values too sparse for bincount")
                 bcounts = numpy.bincount(values.flat)
                 distinct_values = bcounts.nonzero()[0].tolist()
                 counts = {i: bcounts[i].item() for i in distinct_values}
